@@ -1141,6 +1141,15 @@ func vfRunLits() string {
 
 // ---------------------------------------------------------------- driver
 
+// CoA cases are serialised (one global provider); a case may wait for the whole CoA queue before it starts, so its
+// watchdog has to cover that queue, not just its own run time.
+func vfWatchdog(kind string) time.Duration {
+	if kind == "coa" {
+		return 14 * time.Minute
+	}
+	return 60 * time.Second
+}
+
 func vfRunCase(line string) (res string) {
 	defer func() {
 		if r := recover(); r != nil {
@@ -1176,7 +1185,7 @@ func vfRunCase(line string) (res string) {
 	select {
 	case r := <-done:
 		return r
-	case <-time.After(60 * time.Second):
+	case <-time.After(vfWatchdog(f[0])):
 		return "hang"
 	}
 }
